@@ -79,10 +79,17 @@ def use_sites(rng, tier):
     """the matcher as its callers use it"""
     import treegen, C02, C20
     out = []
-    words = [b"SYSTem", b"VERSion", b"ALL", b"STATe", b"CHANnel", b"CHANnel2", b"CHANnel21", b"TRIGger1", b"OUTPut3", b"X", b"ABCDEFGHIJ", b"TIMer25"]
+    words = [b"SYSTem", b"VERSion", b"ALL", b"STATe", b"CHANnel", b"CHANnel2", b"CHANnel21", b"TRIGger1", b"OUTPut3", b"X", b"ABCDEFGHIJ", b"TIMer25",
+             # families in which one short form is a proper prefix of another: a lookup by short-form prefix hides the later sibling
+             b"CALibration", b"CALCulate", b"SENSe", b"SENSOr", b"A", b"AB", b"ABCd", b"OUT", b"OUTPut", b"XY2", b"TRIG", b"TRIGGer"]
     n = 12 if tier == "quick" else 120
     for _ in range(n):
         defs = rng.sample(words, rng.randint(1, 4))
+        if rng.random() < 0.5:      # a prefix family, in either order, among the siblings
+            fam = list(rng.choice([(b"CALibration", b"CALCulate"), (b"SENSe", b"SENSOr"), (b"A", b"AB"), (b"AB", b"ABCd"), (b"OUT", b"OUTPut"), (b"TRIG", b"TRIGGer"), (b"X", b"XY2")]))
+            rng.shuffle(fam)
+            defs = [d for d in defs if d not in fam][:2] + fam
+            rng.shuffle(defs)
         sub = [("L", d, False, i + 1) for i, d in enumerate(defs)]
         sc = {i + 1: ([], ["di%d" % (i + 1)]) for i in range(len(defs))}
         msgs = []
